@@ -1,6 +1,6 @@
 (* C07 — Chunk store round trip and chunk addressing.  Only statements here. *)
 From Coq Require Import ZArith List Bool.
-From KV Require Import Base.Sx Gen.Generated Model.Chunks Proofs.ChunksP.
+From KV Require Import Base.Sx Gen.Generated Model.Chunks Proofs.ChunksP Proofs.ChunksRtP Proofs.ChunksPruneP Proofs.ChunksTopP.
 Import ListNotations.
 Open Scope Z_scope.
 
@@ -69,3 +69,74 @@ Theorem C07_bucket_normalise_keeps_key : forall p,
   /\ ~ In cs_bucket_from (path_bucket (normalise_path p)).
 Proof. intro p. split; [apply normalise_keeps_key|apply normalise_bucket]. Qed.
 Print Assumptions C07_bucket_normalise_keeps_key.
+
+(* ---- round trip ---- *)
+
+(* put_dask_array followed by get_dask_array is the identity, element for element, for EVERY element type, shape
+   (incl. 0-d: chunks = []), chunking (positive chunk sizes, or the single (0,) chunk dask uses for an empty axis),
+   offset (absent or one per dimension, any integers) and prior store content; every block put succeeds.
+   The result is the C-order buffer of the whole array. *)
+Theorem C07_round_trip : forall (A : Type) (d : A) (miss : option A) (st : store A) (arr : str) (dt : Z)
+    (f : list Z -> A) (chunks : list (list Z)) (off : list Z),
+  Forall (fun cs => Forall (fun c => 0 < c) cs \/ cs = [0]) chunks ->
+  (off = [] \/ List.length off = List.length chunks) ->
+  Forall (fun r => r = None) (snd (put_array st arr dt f chunks off)) /\
+  get_array d miss (fst (put_array st arr dt f chunks off)) arr dt chunks off
+    = Ok (map f (enumerate (chunks_shape chunks))).
+Proof. exact round_trip_top. Qed.
+Print Assumptions C07_round_trip.
+
+(* non-vacuity: a 2-d array with uneven chunks and an offset beyond the pad width, and a 0-d array *)
+Example C07_round_trip_examples :
+  get_array (-1) None (fst (put_array [] [120] 7 (fun p => 10 * nth 0 p 0 + nth 1 p 0) [[2;1];[1;2]] [3;100000]))
+            [120] 7 [[2;1];[1;2]] [3;100000] = Ok [0;1;2;10;11;12;20;21;22]
+  /\ map fst (fst (put_array [] [120] 7 (fun _ : list Z => 5) [] [])) = [[120; 47; 46; 110; 112; 121]]
+  /\ get_array (-1) None (fst (put_array [] [120] 7 (fun _ : list Z => 5) [] [])) [120] 7 [] [] = Ok [5].
+Proof. vm_compute. auto. Qed.
+
+(* outside the stated domain: a zero-size chunk in the middle of an axis shares its name with the next chunk *)
+Example C07_round_trip_interior_zero_chunk_refuted :
+  get_array (-1) None (fst (put_array [] [120] 7 (fun p => nth 0 p 0) [[2;0;3]] [])) [120] 7 [[2;0;3]] [] = Err EBadChunk.
+Proof. vm_compute. reflexivity. Qed.
+
+(* the names of the blocks of one array are pairwise distinct *)
+Theorem C07_block_names_distinct : forall arr chunks,
+  Forall (fun cs => Forall (fun c => 0 < c) cs \/ cs = [0]) chunks ->
+  NoDup (map (fun b => chunk_name arr (map fst b)) (blocks chunks)).
+Proof. exact block_names_distinct. Qed.
+Print Assumptions C07_block_names_distinct.
+
+(* ---- pruned read: get_dask_array(..., index = unit-step slices) ---- *)
+
+(* FULL statement wanted: for every index, requested chunks = stored chunks overlapping the selection.
+   It fails for EMPTY selections (see C07_pruned_read_empty_refuted, findings C07-F2/F3), so the guard
+   "every normalised slice is non-empty" is spelled out: then the chunks requested (after pruning, dask culling and
+   offset shifting) are exactly the blocks of the ORIGINAL chunking that overlap the selection, in order, with
+   unchanged boundaries. *)
+Theorem C07_pruned_requests_partial : forall chunks index,
+  Forall (fun cs => Forall (fun c => 0 < c) cs) chunks ->
+  Forall (fun se => fst se < snd se) (norm_index (chunks_shape chunks) index) ->
+  let pr := prune chunks (norm_index (chunks_shape chunks) index) in
+  map (get_slices (map snd pr)) (cart (map (fun x => needed_axis (fst (fst x)) (snd (fst x))) pr))
+    = spec_requested chunks index.
+Proof. exact pruned_requests. Qed.
+Print Assumptions C07_pruned_requests_partial.
+
+(* one axis: pruning only drops whole chunks and shifts the slice by the dropped amount *)
+Theorem C07_prune_axis_keeps_boundaries : forall cs s e,
+  Forall (fun c => 0 < c) cs -> 0 <= s -> s < e -> e <= sumZ cs ->
+  let '(cs', ix', off') := prune_axis cs (s, e) in
+  ix' = (s - off', e - off') /\
+  map (fun se => (fst se + off', snd se + off')) (needed_axis cs' ix')
+    = filter (overlaps (s, e)) (intervals 0 cs).
+Proof. exact prune_axis_requests. Qed.
+Print Assumptions C07_prune_axis_keeps_boundaries.
+
+(* the empty selection 2:2 on chunks (2,2,2): a zero-size chunk (2,2) that is no block of the chunking is requested,
+   its name collides with the stored chunk (2,4) and the read fails with BadChunk instead of returning [] *)
+Example C07_pruned_read_empty_refuted :
+  let st := fst (put_array [] [120] 7 (fun p => nth 0 p 0) [[2;2;2]] []) in
+  get_array_index (-1) None st [120] 7 [[2;2;2]] [(Some 2, Some 2)] = ([[(2, 2)]], Err EBadChunk)
+  /\ spec_requested [[2;2;2]] [(Some 2, Some 2)] = []
+  /\ spec_index_points [[2;2;2]] [(Some 2, Some 2)] = [].
+Proof. vm_compute. auto. Qed.
